@@ -284,16 +284,20 @@ func (c *RetryClient) SetClient(ctx context.Context, cli *BaseClient) {
 		close(c.chConnSwitch)
 	}
 	c.chConnSwitch = make(chan struct{})
+	startTask := c.chTask == nil
+	if startTask {
+		// chTask is read by pushTask and Disconnect under c.mu.
+		c.chTask = make(chan struct{}, 1)
+	}
 	c.mu.Unlock()
 	c.muStats.Lock()
 	c.stats.CountSetClient++
 	c.muStats.Unlock()
 
-	if c.chTask != nil {
+	if !startTask {
 		return
 	}
 
-	c.chTask = make(chan struct{}, 1)
 	go func() {
 		connected := false
 		ctx := context.Background()
